@@ -162,6 +162,12 @@ def queries(case, rng):
                 s = None
         else:
             s = rng.randint(lo - 2, hi + 2); e = rng.randint(lo - 2, hi + 2)
+            # one-sided windows too: a bound left out defaults to the first / last id, the other may lie outside
+            k = rng.random()
+            if k < 0.2:
+                s = None
+            elif k < 0.4:
+                e = None
         qs.append([u, v, s, e])
     return qs
 
